@@ -195,3 +195,46 @@ def rand_ctls_state(rng, depth, atoms=ATOMS, nary=True, max_temporal=3, qdepth=2
             return (rng.choice(TEMP1), path(d - 1, qd, budget))
         return (rng.choice(TEMP2), path(d - 1, qd, budget), path(d - 1, qd, budget))
     return state(depth, qdepth)
+
+
+# ------------------------------------------------------------------------------------------ syntactic classes
+
+def is_pl(t):
+    if t in ('tt', 'ff') or t[0] == 'ap':
+        return True
+    return t[0] in ('not', 'and', 'or', 'imp') and all(is_pl(c) for c in t[1:])
+
+
+def is_ctl_state(t):
+    if t in ('tt', 'ff') or t[0] == 'ap':
+        return True
+    if t[0] in ('not', 'and', 'or', 'imp'):
+        return all(is_ctl_state(c) for c in t[1:])
+    if t[0] in 'AE' and len(t) == 2 and isinstance(t[1], tuple) and t[1][0] in TEMP1 + TEMP2:
+        return all(is_ctl_state(c) for c in t[1][1:])
+    return False
+
+
+def is_ltl_path(t):
+    if t in ('tt', 'ff') or t[0] == 'ap':
+        return True
+    return t[0] in ('not', 'and', 'or', 'imp') + TEMP1 + TEMP2 and all(is_ltl_path(c) for c in t[1:])
+
+
+def is_ctls_state(t):
+    if t in ('tt', 'ff') or t[0] == 'ap':
+        return True
+    if t[0] in ('not', 'and', 'or', 'imp'):
+        return all(is_ctls_state(c) for c in t[1:])
+    return t[0] in 'AE'
+
+
+def well_formed(logic, t):
+    """t is a formula the logic's modelcheck accepts"""
+    if logic == 'CTL':
+        return is_ctl_state(t)
+    if logic == 'LTL':
+        return isinstance(t, tuple) and t[0] == 'A' and is_ltl_path(t[1])
+    if logic == 'CTLS':
+        return is_ctls_state(t)
+    return is_pl(t)
